@@ -174,15 +174,29 @@ pub fn text_like(n: usize, seed: u32) -> Vec<u8> {
     v
 }
 
-/// like `unique` (no 5-byte repeats) but with two of every four bytes drawn from a small range, so that the
-/// Huffman coder is worthwhile while the match finder finds nothing
+/// no 5-byte window occurs twice (so the match finder, whose keys are 5 bytes, finds nothing) while the bytes come
+/// from 64 values with a triangular distribution, so that the Huffman coder clearly beats raw literals at every
+/// length above a few hundred bytes. Deterministic in (n, salt).
 pub fn skewed_unique(n: usize, salt: u32) -> Vec<u8> {
-    let mut v = unique(n, salt);
-    for (i, b) in v.iter_mut().enumerate() {
-        match i % 4 {
-            0 => *b &= 0x07,
-            1 => *b &= 0x1F,
-            _ => {}
+    let mut rnd = xorshift((salt as u64).wrapping_mul(0x9E37_79B9).wrapping_add(0x1234_5678_9ABC));
+    let mut seen: std::collections::HashSet<u64> = std::collections::HashSet::with_capacity(n);
+    let mut v: Vec<u8> = Vec::with_capacity(n);
+    while v.len() < n {
+        let mut tries = 0;
+        loop {
+            let r = rnd();
+            let b = 0x20 + ((r & 63).min((r >> 8) & 63)) as u8;
+            if v.len() >= 4 {
+                let l = v.len();
+                let k = (v[l - 4] as u64) << 32 | (v[l - 3] as u64) << 24 | (v[l - 2] as u64) << 16 | (v[l - 1] as u64) << 8 | b as u64;
+                if !seen.insert(k) {
+                    tries += 1;
+                    assert!(tries < 10_000, "skewed_unique: cannot extend without a repeat");
+                    continue;
+                }
+            }
+            v.push(b);
+            break;
         }
     }
     v
